@@ -526,7 +526,11 @@ func c11RenderConc(rec *c11Rec, raw []byte, variant int) *ProgCase {
 	if rec.Mode == "mutex" {
 		body = "mu.Lock(); total += x; mu.Unlock(); return x"
 	}
-	pc.Decls = fmt.Sprintf("func %s() ([][]int, int) {\n\tvar mu sync.Mutex\n\ttotal := 0\n\touts := c11h.Par(%d, %d, func(x int) int { %s })\n\tmu.Lock()\n\tmu.Unlock()\n\treturn outs, total\n}\n", name, rec.N, rec.KK, body)
+	// the same scenario once more with a function value of a signature gomacro wraps generically
+	// (two parameters, two results), called from the goroutines many times: no call may come back
+	// with the results of another one (the count of such calls is added to total: 0 by the model)
+	stress := fmt.Sprintf("total += c11h.Stress2(%d, 4000, func(a, b int) (int, int) { return a + a + b, b })", rec.N)
+	pc.Decls = fmt.Sprintf("func %s() ([][]int, int) {\n\tvar mu sync.Mutex\n\ttotal := 0\n\touts := c11h.Par(%d, %d, func(x int) int { %s })\n\tmu.Lock()\n\tmu.Unlock()\n\t%s\n\treturn outs, total\n}\n", name, rec.N, rec.KK, body, stress)
 	pc.Entry = name + "()"
 	pc.WantResult = show.Vals(rec.Outs, rec.Total)
 	return pc
